@@ -23,6 +23,8 @@ VERUS_UNITS = {
     "gpu": ("units_gpu", ["C01", "C06", "C10"]),
     "daemon": ("units_daemon", ["C16"]),
 }
+# units in which a lock guard is encoded as a `&mut` borrow of its owner (rule R8)
+R8_UNITS = ("frontend", "proxy", "gpu")
 # which units to run for a property
 VERUS_FOR = {}
 for _u, (_m, _ps) in VERUS_UNITS.items():
@@ -228,6 +230,16 @@ def run_verus_unit(name, prop, tier, keep=False):
         for L in [d["line"]] + d.get("all_lines", []):
             marker = marker or extracted_marker(lines, L)
         key = "verus:%s:%s:%s:%s:%s" % (name, d["fn"], (marker or "env").replace(" ", "_"), (d["label"] or "-").replace(" ", ""), d["message"].replace(" ", "_"))
+        if d.get("code") in vx.BORROW_CODES:
+            if name in R8_UNITS and prop == "C10":
+                bad += 1
+                res["failures"].append(dict(engine="verus", unit=name, fn=d["fn"], label="C10", message="lock re-entry: " + d["message"],
+                                            clause=d["text"], extracted=marker, rendered=d["rendered"], path=path,
+                                            key="verus:%s:%s:%s:C10:lock_taken_again_while_guard_alive" % (name, d["fn"], (marker or "env").replace(" ", "_"))))
+            else:
+                res["status"] = "undecided"
+                res["undecided"] = "borrow-check error in generated unit (%s, line %d)" % (d["message"], d["line"])
+            continue
         if "Resource limit" in d["message"] or "rlimit" in d["message"]:
             res["status"] = "undecided"
             res["undecided"] = "rlimit in %s" % d["fn"]
